@@ -15,8 +15,8 @@ func init() {
 		Run: runNilOnInfinity,
 	})
 	register(&Rule{
-		ID: "C11.float-nan", Prop: "C11", Floor: 2, Controls: 1,
-		Doc: "a float64 produced by math.Log/Log2/Log10/Pow/Sqrt/Mod/Acos/Asin or by a float division reaches cty.NumberFloatVal only through a math.IsNaN test (NumberFloatVal panics on NaN, so the standard function would report an internal panic)",
+		ID: "C11.float-nan", Prop: "C11", Also: []string{"C17", "C16"}, Floor: 2, Controls: 1,
+		Doc: "a float64 produced by math.Log/Log2/Log10/Pow/Sqrt/Mod/Acos/Asin, by a float division, or read from MessagePack input reaches cty.NumberFloatVal only through a math.IsNaN test (NumberFloatVal panics on NaN, so the standard function would report an internal panic)",
 		Run: runFloatNaN,
 	})
 	register(&Rule{
@@ -208,8 +208,13 @@ func mayBeNaN(info *types.Info, e ast.Expr) string {
 	ast.Inspect(e, func(n ast.Node) bool {
 		switch x := n.(type) {
 		case *ast.CallExpr:
-			if k := funcKey(callee(info, x)); nanSources[k] {
+			f := callee(info, x)
+			if k := funcKey(f); nanSources[k] {
 				why = k
+			}
+			// a float read from the wire can be any bit pattern, NaN included
+			if f != nil && f.Pkg() != nil && strings.Contains(f.Pkg().Path(), "msgpack") && (f.Name() == "DecodeFloat64" || f.Name() == "DecodeFloat32") {
+				why = "the decoder's " + f.Name() + " (the input may encode NaN)"
 			}
 		case *ast.BinaryExpr:
 			if x.Op == token.QUO {
@@ -227,7 +232,7 @@ func mayBeNaN(info *types.Info, e ast.Expr) string {
 
 func runFloatNaN(rr *RuleRun) {
 	c := rr.Ctx
-	eachFuncBody(c, []string{"cty/function/stdlib", "cty", "cty/convert", "cty/gocty"}, func(pkg string, fd *ast.FuncDecl, body *ast.BlockStmt) {
+	eachFuncBody(c, []string{"cty/function/stdlib", "cty", "cty/convert", "cty/gocty", "cty/msgpack", "cty/json"}, func(pkg string, fd *ast.FuncDecl, body *ast.BlockStmt) {
 		info := c.Info(pkg)
 		inspectNoLit(body, func(n ast.Node) bool {
 			call, ok := n.(*ast.CallExpr)
